@@ -363,7 +363,7 @@ def _main(argv):
         nseeds = h.get("thorough_shards", 16) if tier == "thorough" else h.get("quick_shards", 2)
         seeds = [seed * 1000 + i for i in range(nseeds)]
         cdir = os.path.join(ROOT, "corpus", prop)
-        corpus = sorted(os.path.join(cdir, f) for f in os.listdir(cdir) if f.endswith(".ops") and f.startswith(h["bin"])) if os.path.isdir(cdir) else []
+        corpus = sorted(os.path.join(cdir, f) for f in os.listdir(cdir) if f.endswith(".ops") and (f == h["bin"] + ".ops" or f.startswith(h["bin"] + "-") or f.startswith(h["bin"] + "_") or f.startswith(h["bin"] + "."))) if os.path.isdir(cdir) else []
         agg = correspondence(prop, h, seeds, n // nseeds, corpus, h.get("timeout", 3000))
         agg_all["cases"] += agg["cases"]; agg_all["nontrivial"] += len(agg["nontrivial"])
         for k, v in agg["stats"].items(): agg_all["stats"][h["bin"] + "." + k] = v
